@@ -146,4 +146,13 @@ META = {
     design_ref='DESIGN.md 6/C15',
     note='Protobuf values use well-known types available offline (wrapperspb, durationpb). Malformed payloads are expected to be Nacked (see assumptions).',
     technique='TLA+ dispatch function checked by TLC over the full small input space, used as oracle in trace validation of real processors'),
+ 'C17': dict(
+    text='Relay.tla states one attempt of a relay on a consumed message (at most one destination call with the computed topic and the message intact, Requeuer counter +1, no call '
+         'for an invalid envelope, Ack only after accept, Nack otherwise, invalid envelopes per AckWhenCannotUnwrap) and TLC checks AckedImpliesAccepted / RetriesByOne on a small '
+         'exhaustive model with redelivery. Real Forwarder (+Publisher, single and batch), FanIn, Requeuer and FanOut instances on their real internal Routers are fed by a scripted '
+         'source that redelivers after Nack and a scripted destination with failure scripts; consume/destination-call (with the settlement sampled inside)/settlement events are '
+         'validated against the spec; at quiescence every valid message is acknowledged-and-relayed',
+    design_ref='DESIGN.md 6/C17',
+    note='FanOut is observed at its Subscribe side through two real consumers. Envelope fidelity over wide inputs is C16.',
+    technique='TLA+ relay protocol spec + fault-script trace validation on the real components'),
 }
